@@ -354,8 +354,8 @@ OP_SKELETONS = {
                           'single_TRANSPOSE_CONV_EMPTY_BIAS'],
     'BATCH_MATMUL': ['single_BMM', 'single_BMM_CONST', 'single_BMM_CONST_ADJY'],
     'EMBEDDING_LOOKUP': ['single_EMBEDDING_LOOKUP'],
-    'ADD': ['single_ADD', 'single_ADD_CONST', 'single_ADD_SAME'],
-    'SUB': ['single_SUB'], 'MUL': ['single_MUL', 'single_MUL_CONST',
+    'ADD': ['single_ADD_CONST', 'single_ADD', 'single_ADD_SAME'],
+    'SUB': ['single_SUB'], 'MUL': ['single_MUL_CONST', 'single_MUL',
                                    'single_MUL_SAME'],
     'RESHAPE': ['single_RESHAPE'], 'TRANSPOSE': ['single_TRANSPOSE'],
     'MEAN': ['single_MEAN'], 'STRIDED_SLICE': ['single_STRIDED_SLICE'],
